@@ -17,7 +17,7 @@
 (*          supported subset and the generator must not have emitted it)   *)
 (* Expressions: the ADL of harness/adl.py (JSON).                          *)
 (***************************************************************************)
-EXTENDS BitVec
+EXTENDS Helpers
 
 CV(t, v) == [t |-> t, v |-> v]
 CBit(b)  == CV("bit", b)
@@ -222,5 +222,39 @@ CEval(e, rd) ==
          ELSE CErr("reject:index type " \o i.t)
     [] e.k = "view" -> LET a == CEval(e.e, rd) IN IF CIsErr(a) THEN a ELSE CView(a, e.to)
     [] e.k = "resize" -> LET a == CEval(e.e, rd) IN IF CIsErr(a) THEN a ELSE CResize(a, e.w)
+    [] e.k = "call" ->   \* std helper applied to run-time operands: its mathematical definition (Helpers.tla)
+         LET as == [i \in 1..Len(e.args) |-> CEval(e.args[i], rd)]
+             bad == {i \in 1..Len(as) : CIsErr(as[i])}
+             A(i) == as[i].v
+             P(i) == e.p[i]
+             f == e.f
+         IN IF bad # {} THEN as[CHOOSE i \in bad : TRUE]
+            ELSE IF \E i \in 1..Len(as) : CIsVec(as[i]) /\ ~Known(as[i].v) THEN CErr("undefined")
+            ELSE CASE f = "count_set_bits" -> CInt(CountSetBits(A(1)))
+                   [] f = "count_clear_bits" -> CInt(CountClearBits(A(1)))
+                   [] f = "count_trailing_zeros" -> CInt(TrailingZeros(A(1)))
+                   [] f = "count_trailing_ones" -> CInt(TrailingOnes(A(1)))
+                   [] f = "count_leading_zeros" -> CInt(LeadingZeros(A(1)))
+                   [] f = "count_leading_ones" -> CInt(LeadingOnes(A(1)))
+                   [] f = "is_one_hot" -> CBool(IsOneHot(A(1)))
+                   [] f = "reverse_bits" -> CV("bv", ReverseBits(A(1)))
+                   [] f = "rol" -> CV("bv", Rol(A(1), P(1)))
+                   [] f = "ror" -> CV("bv", Ror(A(1), P(1)))
+                   [] f = "stretch" -> CV("bv", Stretch(A(1), P(1)))
+                   [] f = "repeat" -> CV("bv", Repeat(A(1), P(1)))
+                   [] f = "leftpad" -> CV("bv", LeftPad(A(1), P(1), 0))
+                   [] f = "rightpad" -> CV("bv", RightPad(A(1), P(1), 0))
+                   [] f = "lshift_fill" -> CV("bv", LshiftFill(A(1), IF as[2].t = "bit" THEN <<as[2].v>> ELSE A(2)))
+                   [] f = "rshift_fill" -> CV("bv", RshiftFill(A(1), IF as[2].t = "bit" THEN <<as[2].v>> ELSE A(2)))
+                   [] f = "apply_mask" -> CV("bv", ApplyMask(A(1), A(2), A(3)))
+                   [] f = "select_batch" -> CV("bv", SelectBatch(A(1), A(2), P(1)))
+                   [] f = "one_hot" -> (IF ToNat(A(1)) < P(1) THEN CV("bv", OneHot(P(1), ToNat(A(1)))) ELSE CErr("undefined"))
+                   [] f = "minimum" -> CV("u", FromInt(Minimum([i \in 1..Len(as) |-> ToNat(A(i))]), Len(A(1))))
+                   [] f = "maximum" -> CV("u", FromInt(Maximum([i \in 1..Len(as) |-> ToNat(A(i))]), Len(A(1))))
+                   [] f = "min_index" -> CInt(MinIndex([i \in 1..Len(as) |-> ToNat(A(i))]) - 1)
+                   [] f = "max_index" -> CInt(MaxIndex([i \in 1..Len(as) |-> ToNat(A(i))]) - 1)
+                   [] f = "clamp" -> CV("u", FromInt(Clamp(ToNat(A(1)), P(1), P(2)), Len(A(1))))
+                   [] f = "count" -> CInt(Count([i \in 1..(Len(as) - 1) |-> ToNat(A(i))], ToNat(A(Len(as)))))
+                   [] OTHER -> CErr("reject:unknown helper " \o f)
     [] OTHER -> CErr("reject:expression kind " \o e.k)
 =============================================================================
